@@ -25,11 +25,15 @@ NItems(w, kind) == IF kind.t \in CellKinds THEN NC(w) * NR(w) ELSE NR(w)
 \* the cells (values) of item i (1-based), in order
 ItemCells(w, kind, i) == IF kind.t \in RowKinds THEN RowOf(w, i - 1)
                          ELSE IF kind.t \in ColKinds THEN <<Cell(w, kind.c, i - 1)>>
-                         ELSE <<Flat(w)[i]>>
+                         ELSE <<w[((i - 1) \div NC(w)) + 1][((i - 1) % NC(w)) + 1]>>
 ItemRes(w, kind, i) == IF kind.t \in RowKinds THEN Ids(RowOf(w, i - 1)) ELSE Some(ItemCells(w, kind, i)[1])
 
-RECURSIVE CellsOfRange(_, _, _, _)
-CellsOfRange(w, kind, a, b) == IF a > b THEN << >> ELSE ItemCells(w, kind, a) \o CellsOfRange(w, kind, a + 1, b)
+\* the cells of items a..b in order (closed form: the recursive definition is quadratic on long sequences)
+CellsOfRange(w, kind, a, b) ==
+    IF a > b THEN << >>
+    ELSE IF kind.t \in RowKinds THEN SubSeq(Flat(w), (a - 1) * NC(w) + 1, b * NC(w))
+    ELSE IF kind.t \in ColKinds THEN [i \in 1..(b - a + 1) |-> Cell(w, kind.c, a + i - 2)]
+    ELSE SubSeq(Flat(w), a, b)
 RECURSIVE CellsOfRangeRev(_, _, _, _)
 CellsOfRangeRev(w, kind, a, b) == IF a > b THEN << >> ELSE ItemCells(w, kind, b) \o CellsOfRangeRev(w, kind, a, b - 1)
 Fold(n, cells) == [k |-> "fold", n |-> n, v |-> cells]
@@ -75,12 +79,13 @@ WBase == 2000
 RECURSIVE PosIn(_, _, _)
 PosIn(ys, i, k) == IF k > Len(ys) THEN 0 ELSE IF ys[k] = i THEN k ELSE PosIn(ys, i, k + 1)
 WrittenWindow(w, kind, ys) ==
+    LET yset == Range(ys) IN
     [y \in 1..NR(w) |-> [x \in 1..NC(w) |->
         LET item == IF kind.t \in RowKinds THEN y
                     ELSE IF kind.t \in ColKinds THEN (IF x = kind.c + 1 THEN y ELSE 0)
                     ELSE (y - 1) * NC(w) + x
             off  == IF kind.t \in RowKinds THEN x - 1 ELSE 0
-            p    == IF item = 0 THEN 0 ELSE PosIn(ys, item, 1)
+            p    == IF item = 0 \/ item \notin yset THEN 0 ELSE PosIn(ys, item, 1)
         IN IF p = 0 THEN w[y][x] ELSE WBase + 16 * (p - 1) + off]]
 \* no item is ever yielded twice (disjointness of the mutable references)
 YieldOnce(ys) == NoDup(ys)
